@@ -4,12 +4,38 @@ The agent sees only the property text and its own scratch worktree."""
 import json, sys
 pid = sys.argv[1]
 wt = sys.argv[2]
+round2 = len(sys.argv) > 3
 for l in open('/verif/properties.jsonl'):
     p = json.loads(l)
     if p['id'] == pid:
         break
 else:
     raise SystemExit("no such property")
+AVOID = {
+ "C01": "the unary code-length extension loop in read_length_value; the fill_bytes computation in peek_bits",
+ "C02": "the NUM_TREE_NODES-1 bound in increment_node_freq; the group reassignment loop bound in reconstruct_tree",
+ "C03": "a self-overlap shortcut in lz5 output_block; the order of memset/ringbuf_pos in lzs init",
+ "C04": "need_offset_tree assignment order in pm2 read_code_tree; the 3648 threshold in pm1 read_copy_command",
+ "C05": "sign extension of the DOS year in decode_ftime; the else-if in fix_msdos_allcaps",
+ "C06": "a cached prefix length for the directory stack in lha_reader.c; the 128-byte round-up in is_macbinary_header",
+ "C07": "stream_pos += buf_len in lha_decoder_read; an early return for length==0 in do_decode",
+ "C08": "MIN_EXT_HEADER_LEN for level 3 in decode_extended_headers; parse_symlink returning 1 without a '|'",
+ "C09": "signed start position in copy_from_history; TreeElement widened to 16 bits in pm2",
+ "C10": "extract_directory falling through when mkdir fails; fopen instead of lha_arch_fopen for the placeholder",
+ "C11": "an early return in collapse_path; moving split_header_filename out of process_level0_path",
+ "C12": "skipping the common CRC check for level 1; available_length accounting in decode_extended_headers",
+ "C13": "the n==0 exit in read_macbinary_header; a heap scratch buffer in file_source_skip_fallback",
+ "C14": "lha_decoder_monitor announcing only the current block; decoder_failed set when filled==0",
+ "C15": "removing the CURR_FILE_NORMAL guard in open_decoder; a static buffer in do_decode",
+ "C16": "LEADIN_BUFFER_LEN raised to 32; the scan loop bound in skip_sfx",
+ "C17": "a 16-bit length counter; an odd-address peel without a length check",
+ "C18": "the 0x7f boundary in safe_output; plain printf for suffixes in extract_archive_dry_run",
+ "C19": "the six-month comparison in output_timestamp; backtracking in match_glob",
+ "C20": "close_decoder freeing the inner decoder only when the outer exists; fclose skipped when do_decode fails",
+}
+extra = ""
+if round2:
+    extra = "\n\nIMPORTANT: changes at the following sites/mechanisms have already been collected for this property; produce changes that hit DIFFERENT functions and mechanisms (different clause of the property if possible): " + AVOID.get(pid, "") + ". Name your output directories " + pid + "-3 and " + pid + "-4 instead of -1 and -2."
 print(f"""You are helping to evaluate a verification framework for the open-source C project fragglet/lhasa (a library and CLI that parses and decompresses LHA/LZH archives). Your job: write realistic *defect-introducing* changes ("seeded bugs") against a stated semantic property, so that we can later see whether independent machinery detects them. You work ONLY inside your own scratch git worktree of the project: {wt}  (it is already configured; `make -j16` builds it in ~15 s and `make -j16 check` runs the project's own test suite in ~1-2 minutes; the CLI test binary is src/test-lha, the normal one src/lha; the static test library is lib/liblhasatest.a, public headers are in lib/public). Do NOT read or touch /verif or /repo, and do not look at any other /tmp/wt-* directory. There is no network.
 
 The property (id {pid}): "{p['title']}"
@@ -30,4 +56,4 @@ For each change k in {{1,2}} write, inside {wt}/seedout/{pid}-k/ :
   - patch.diff : `git diff` of the change alone against the worktree's HEAD (apply-able with `git apply` from the repository root; do not include seedout/ or build products),
   - demo.c or demo.sh (plus any tiny input files it needs, which it should preferably generate itself) and a run.sh that builds and runs the demonstration from the repository root given as $1 (default: the worktree), exiting 0 = property holds, non-zero = violated,
   - notes.md : which clause of the property is broken, what exactly is needed for it to manifest, why the test suite does not notice, and the output of your runs (suite result with the change; demo result with and without the change).
-Work on one change at a time: apply it, build, run `make -j16 check`, run the demo; then `git checkout -- lib src` to revert, rebuild, and run the demo again to confirm it passes on the unchanged tree. Leave the worktree's tracked files UNCHANGED (reverted) when you finish; only seedout/ remains. Your final message should list, for each change, a 2-3 line summary (site, trigger, suite result, demo results).""")
+Work on one change at a time: apply it, build, run `make -j16 check`, run the demo; then `git checkout -- lib src` to revert, rebuild, and run the demo again to confirm it passes on the unchanged tree. Leave the worktree's tracked files UNCHANGED (reverted) when you finish; only seedout/ remains. Your final message should list, for each change, a 2-3 line summary (site, trigger, suite result, demo results).{extra}""")
